@@ -67,6 +67,10 @@ def e1_configs(tier):
     ]
     for f in family51():
         cfgs.append(W(kind="filtered", depth=2, W=2, accepted=f))
+    # callbacks that take time (a scheduling point between start and end of each callback): a parent whose
+    # callback overlaps a child's is only visible this way
+    for f in family51()[3::6]:
+        cfgs.append(W(kind="filtered", depth=2, W=2, accepted=f, with_pause=True))
     cfgs.append(W(kind="filtered", depth=2, W=2, accepted=family51()[20], apex=(1, 0, 0)))
     cfgs.append(W(kind="filtered", depth=2, W=2, accepted=family51()[20], apex=(1, 1, 1)))
     cfgs.append(W(kind="filtered", depth=2, W=2, accepted=family51()[20], apex=(1, 1, 0)))
@@ -81,6 +85,18 @@ def e1_configs(tier):
             first_depth=2, first_accepted=[(1, 0, 0), (2, 0, 0)],
         )
     )
+    # the same kind of history with a parent that has FOUR live children in the second walk (only then is
+    # no fresh readiness entry written for it) and callbacks that take time; the full graph has > 17 000
+    # states, so quick explores every schedule within 3 departures from the default order, thorough all
+    four = [(1, 0, 0), (2, 0, 0), (1, 1, 0), (2, 2, 0), (1, 0, 1), (2, 0, 2), (1, 1, 1), (2, 2, 2)]
+    if tier == "quick":
+        cfgs.append(stages.WalkTwice(kind="filtered", depth=2, W=2, accepted=four, first_depth=1, first_accepted=[(1, 0, 0)], with_pause=True, max_deviations=3))
+    else:
+        cfgs.append(stages.WalkTwice(kind="filtered", depth=2, W=2, accepted=four, first_depth=1, first_accepted=[(1, 0, 0)], with_pause=True, max_deviations=6))
+        cfgs.append(stages.WalkTwice(kind="filtered", depth=2, W=2, accepted=four, first_depth=1, first_accepted=[(1, 0, 0)], with_pause=True))
+    # the calling process already owns an unrelated idle child process (dead-worker detection that counts
+    # the process's children must not misfire)
+    cfgs.append(W(kind="filtered", depth=2, W=2, accepted=three, foreign_child=True))
     if tier == "thorough":
         cfgs += [
             W(kind="generic", depth=2, W=2),
